@@ -41,6 +41,7 @@ func run(c hx.Config) error {
 	}
 	r := hx.NewRng(c.Seed)
 	cfg := cx.Probe()
+	cx.ContainerChecks = true // Refine / Overwrite checks on the containers, besides the size checks
 	perKind, maxDepth := 26, 4
 	if c.Thorough() {
 		perKind, maxDepth = 220, 6
@@ -91,6 +92,19 @@ func run(c hx.Config) error {
 				for _, ch := range s.Children(v) {
 					if bad, ok := ch.M.Invalid(r, ch.GoT); ok {
 						emit(s, ch.Replace(bad), "corrupt1")
+						// the same behind a pointer (validatePointer's path for every container)
+						switch t := ch.Replace(bad).(type) {
+						case []any:
+							emit(s, &t, "corrupt1-ptr")
+						case map[string]any:
+							emit(s, &t, "corrupt1-ptr")
+						case map[any]any:
+							emit(s, &t, "corrupt1-ptr")
+						case []string:
+							emit(s, &t, "corrupt1-ptr")
+						case map[string]struct{}:
+							emit(s, &t, "corrupt1-ptr")
+						}
 					}
 				}
 				for range 3 {
